@@ -44,7 +44,7 @@ impl FromStr for Reflink {
     type Err = XcpError;
 
     fn from_str(s: &str) -> result::Result<Self, Self::Err> {
-        match s.to_lowercase().as_str() {
+        match s.to_ascii_lowercase().as_str() {
             "always" => Ok(Reflink::Always),
             "auto" => Ok(Reflink::Auto),
             "never" => Ok(Reflink::Never),
@@ -70,7 +70,7 @@ impl FromStr for Backup {
     type Err = XcpError;
 
     fn from_str(s: &str) -> result::Result<Self, Self::Err> {
-        match s.to_lowercase().as_str() {
+        match s.to_ascii_lowercase().as_str() {
             "none" | "off" => Ok(Backup::None),
             "auto" => Ok(Backup::Auto),
             "numbered" => Ok(Backup::Numbered),
